@@ -6,7 +6,9 @@
 (* for, nested blocks, with braced or bare (unbraced) arms.                *)
 (* Sentences are in prefix notation:                                       *)
 (*   s | n | r | if ARM | ife ARM ARM | wh ARM | for ARM | { LIST }        *)
-(*   (s assigns a local, n is a statement that assigns none: an assert)    *)
+(*   (s assigns a local, n is a statement that assigns none: an assert; d    *)
+(*   declares a signal / a local without initialiser; m is one declaration   *)
+(*   statement with two symbols `var a = .., b[..];`)                        *)
 (*   ARM  = { LIST } | bare STMT          LIST = sequence closed by "}"    *)
 (* The harness numbers the nodes, chooses which variables the simple       *)
 (* statements and conditions read and write (all patterns over two         *)
@@ -22,7 +24,7 @@ vars == <<form, steps>>
 NT == {"<List>", "<Stmt>", "<Arm>", "<LoopArm>", "<Stmt2>"}
 P == [nt \in NT |->
   CASE nt = "<List>" -> {<<"}">>, <<"<Stmt>", "<List>">>}
-    [] nt = "<Stmt>" -> {<<"s">>, <<"n">>, <<"r">>, <<"if", "<Arm>">>, <<"ife", "<Arm>", "<Arm>">>, <<"wh", "<LoopArm>">>, <<"for", "<LoopArm>">>,
+    [] nt = "<Stmt>" -> {<<"s">>, <<"n">>, <<"d">>, <<"m">>, <<"r">>, <<"if", "<Arm>">>, <<"ife", "<Arm>", "<Arm>">>, <<"wh", "<LoopArm>">>, <<"for", "<LoopArm>">>,
                          <<"{", "<List>">>}
     [] nt = "<Arm>" -> {<<"{", "<List>">>, <<"bare", "<Stmt>">>}
     \* the grammar (lang.lalrpop ParseStatement2) does not accept a bare `if` as a loop body
